@@ -310,7 +310,18 @@ def r03_2_dependency_scan(ctx):
         B.succ[cur] = [head]
         return cur, head, 1
 
+    def load_same_block_before(B):
+        # a load that runs before the pair in the same block (reads the previous value of the slot)
+        cur = B.block("cur", [mkop(OpS, "load", a), mkop(OpS, "pop"), mkop(OpS, "store", a), mkop(OpS, "load", a)])
+        return cur, cur, 3
+
+    def pair_later_in_block(B):
+        cur = B.block("cur", [mkop(OpS, "int", 1), mkop(OpS, "pop"), mkop(OpS, "store", a), mkop(OpS, "load", a)])
+        return cur, cur, 3
+
     scenario("only the matched pair", only_pair, False)
+    scenario("only the matched pair, later in its block", pair_later_in_block, False)
+    scenario("earlier load in the same block", load_same_block_before, True)
     scenario("load in a sibling branch not reachable from the pair", load_in_earlier_sibling, True)
     scenario("load in a later block", load_in_later_block, True)
     scenario("second load in the same block", load_same_block_elsewhere, True)
@@ -325,7 +336,7 @@ def r03_2_dependency_scan(ctx):
     ago = ctx.model.find_func("apply_global_optimizations", "pyteal.compiler.optimizer.optimizer")
     c2 = q.one(q.calls_named(ago.node, "_apply_slot_to_stack", into_nested=False), f"{ago.fq}: call of _apply_slot_to_stack")
     ctx.check([u(x) for x in c2.args] == ["block", ago.params()[0], f"{ago.params()[1]}._skip_slots"], "R03.2", "apply_global_optimizations:args", f"_apply_slot_to_stack(block, start, options._skip_slots) expected, found {[u(x) for x in c2.args]}", f"{ago.module.rel}:{c2.lineno}", fact={})
-    ctx.require_min("R03.2", 9)
+    ctx.require_min("R03.2", 11)
 
 
 def r03_4_defaults(ctx):
